@@ -19,15 +19,24 @@ CTYPES = ["h1", "h1tls", "h2tls", "h2pk", "fwd", "tun_h1", "tun_h2", "socks_h1",
 COMPANY = ["alone", "queued", "shared", "joiner", "behind"]
 
 
+def _company_of(index):
+    # diagonal: consecutive bases differ in connection type *and* company, so that a sweep
+    # cut short by its time budget has still seen every company
+    return COMPANY[(index // len(CTYPES) + index) % len(COMPANY)]
+
+
 def base_index(ctype, company):
     """Index of the base scenario with this connection type and company."""
-    return COMPANY.index(company) * len(CTYPES) + CTYPES.index(ctype)
+    for i in range(len(CTYPES) * len(COMPANY)):
+        if CTYPES[i % len(CTYPES)] == ctype and _company_of(i) == company:
+            return i
+    raise KeyError((ctype, company))
 
 
 def base_scenario(seed, index, ex="asyncio"):
     r = gen.mk_rng(seed, "c05base")
     ctype = CTYPES[index % len(CTYPES)]
-    company = COMPANY[(index // len(CTYPES)) % len(COMPANY)]
+    company = _company_of(index)
     tls = ctype in ("h1tls", "h2tls", "tun_h1", "tun_h2", "socks_tls", "socks_auth_h2",
                     "stun_h1")
     h2 = ctype in ("h2tls", "h2pk", "tun_h2", "socks_auth_h2")
@@ -442,7 +451,7 @@ def evictor_scenario(seed, index, ex="asyncio"):
     one pass) before it gets a connection."""
     r = gen.mk_rng(seed, "evictor")
     ct = ["h1", "h1tls", "h2tls", "fwd", "socks_h1", "tun_h1"][index % 6]
-    b = base_scenario(seed, CTYPES.index(ct), ex)        # company "alone"
+    b = base_scenario(seed, base_index(ct, "alone"), ex)
     b["company"] = "evictor"
     k = r.choice([2, 2, 3])
     b["pool"]["max_connections"] = k
